@@ -455,3 +455,25 @@ def oracle_forest(d, ex, cur, t, p, name, e):
 
 ORACLES.update(diagram=oracle_diagram, forest=oracle_forest)
 FINALS = dict(diagram=final_diagram, forest=final_forest)
+
+
+def gen_rates(rnd, dyn='sto'):
+    """C02/C06: a scripted process with several per-element and fixed-rate events whose rates are equal, zero, or differ by 1:1000,
+    on loci of different sizes (incl. empty ones); handlers move nodes between compartments"""
+    ncomp = 3
+    nodes, edges = rand_net(rnd, 3, 8)
+    nh = 3
+    handlers = [['N', [['CCL', c]]] for c in range(ncomp)]
+    P = [0.0, 0.0009765625, 0.125, 0.25, 0.5, 1.0]
+    nodeloci = [0, 1, 2]
+    perel = []
+    for l in rnd.sample(range(3), rnd.randint(1, 3)):
+        perel.append([l, rnd.choice(P), (l + rnd.choice([1, 2])) % 3])
+    if rnd.random() < 0.4 and perel:
+        perel.append([perel[0][0], perel[0][1], perel[0][2]])           # two events with the same rate on the same locus
+    fixed = [[rnd.randrange(3), rnd.choice(P), rnd.randrange(3)] for _ in range(rnd.choice([0, 1, 2]))]
+    comps = rnd.choice([[0.5, 0.5, 0.0], [0.5, 0.25, 0.25], [1.0, 0.0, 0.0]])
+    sp = dict(comps=comps, nodeloci=nodeloci, edgeloci=[], multiloci=[], perel=perel, fixed=fixed, handlers=handlers, posts=[])
+    ps = sorted({p for (_, p, _) in perel + fixed if 0 < p < 1})
+    return dict(procs=[dict(cls='Script', name=None, spec=sp)], seq='bare', dyn=dyn, nodes=nodes, edges=edges,
+                maxT=rnd.choice([2.0, 4.0, 8.0]), seed=rnd.random(), specials=ps, pspecial=0.25, oracles=['clock', 'member', 'loci'])
